@@ -1438,7 +1438,12 @@ impl TransportManager {
                                         "inform protocols about open failure",
                                     );
 
-                                    let addresses = errors
+                                    // The report must name the addresses dialed over all
+                                    // transports, not only those of the last failed transport.
+                                    let mut grouped_errors = self.opening_errors.remove(&connection_id).unwrap_or_default();
+                                    grouped_errors.extend(errors);
+
+                                    let addresses = grouped_errors
                                         .iter()
                                         .map(|(address, _)| address.clone())
                                         .collect::<Vec<_>>();
@@ -1471,8 +1476,6 @@ impl TransportManager {
                                         };
                                     }
 
-                                    let mut grouped_errors = self.opening_errors.remove(&connection_id).unwrap_or_default();
-                                    grouped_errors.extend(errors);
                                     return Some(TransportEvent::OpenFailure { connection_id, errors: grouped_errors });
                                 }
                                 Ok(None) => {
